@@ -27,7 +27,9 @@
   locked and the expression(s) that select the class whose lists / pages / counters are edited
   (`Gen.MemClasses.mallocLockSel`, `mallocEditSel`, `freeLockSel`, `freeEditSel`, `…LockBrackets`);
   `malloc_locks_own_class` / `free_locks_own_class` prove from these terms that the locked class is the edited
-  class and is the class the model's step edits.  A source that locks by another expression (e.g.
+  class and is the class the model's step edits.  `…LockBrackets` covers the Allocator's per-class slices AND
+  the fields of page headers / free-list nodes in mmap'd memory (moving `header.used++` behind `Unlock()`
+  flips it to false).  A source that locks by another expression (e.g.
   `getSizeClass(sh.Cap)` in Free) regenerates another term and these theorems no longer compile.
 -/
 import GocoinV.Proofs.C20Once
@@ -307,7 +309,11 @@ theorem free_lists_exact {V : Type} (s : State V) (inv : Inv s) (p : Nat) (h : P
   · rintro ⟨h0, a, _, _, d⟩; rw [hp] at a; cases a; exact d
   · intro d; exact ⟨h, hp, rfl, inv.noEvac p h hp, d⟩
 
-/-- The uint16 header counters never wrap: they stay ≤ cap < 2^16 (so modelling them as naturals is exact). -/
+/-- The uint16 header counters never wrap: they stay ≤ cap < 2^16 (so modelling them as naturals is exact).
+NOT covered: the uint32 class counters `a.freeSlots[class]` / `a.pageCount[class]` are naturals in the model
+and no theorem bounds them; freeSlots[class] ≤ pageCount·cap and a page is 1 MiB (2^pageSizeLog), so a wrap
+needs 2^32 free slots of one class = at least 2^32·96 bytes ≈ 390 GB of mapped pages of that class — assumed
+not to happen, stated here, proved nowhere. -/
 theorem counters_fit {V : Type} (s : State V) (inv : Inv s) (p : Nat) (h : Page)
     (hp : s.pages.get? p = some h) : h.brk < 2 ^ brkBits ∧ h.used < 2 ^ usedBits ∧ h.free < 2 ^ freeBits := by
   obtain ⟨_, _, _, h4, h5, h6, _, _⟩ := free_lists_exact s inv p h hp
@@ -449,6 +455,12 @@ theorem rep_inv {V : Type} (ops : List (Op V)) (s : State V) (hr : run init ops 
 theorem rep_step {V : Type} (s s' : State V) (op : Op V) (inv : Inv s) (r : Rep s)
     (hr : step s op = .ok s') : Rep s' := step_rep inv r hr
 
+/-- non-vacuity at a state with a mapped page and a live record (at `init` no page exists) -/
+example : Inv exS1 ∧ Rep exS1 ∧ ∃ s', step exS1 (.malloc 131040) = .ok s' := by
+  have i := alloc_inv _ _ exS1_run
+  obtain ⟨s', a, h⟩ := malloc_never_fails exS1 i 131040
+  exact ⟨i, rep_inv _ _ exS1_run, s', by simp [step, h]⟩
+
 /-- What the code reads through pointers is what the list model says: `a.lists[class]` is the head of
 `glist` (so the slot Malloc pops is the model's), walking `next` / `nextInPage` with enough fuel yields
 `glist` / the page's free list (so the set `freeSlotsArr` that defragClass collects and the nodes it
@@ -524,6 +536,21 @@ theorem node_writes_clobbered {V : Type} (s : State V) (inv : InvG s) (r : Rep s
    fun _ _ _ hr y => endEvac_writes_none hr y⟩
 
 example : InvG (init : State Nat) ∧ Rep (init : State Nat) := ⟨init_invG, init_rep⟩
+/-- Non-vacuity away from `init` (where allocSlot fails and no page exists): in the reachable state `exS1`
+(Proofs/C20Example: one page of class 49 with one live record) the hypotheses hold, allocSlot and beginEvac
+succeed; and in the reachable state after Malloc, Malloc, Free(1,0) a freeSlot of (1,1) really changes the node
+of ANOTHER slot — `(1,0).prev` — which by the theorem holds `junk` afterwards. -/
+example : (InvG exS1 ∧ Rep exS1) ∧ (∃ r, allocSlot exS1 49 = .ok r) ∧ (∃ s', beginEvac exS1 49 1 = .ok s') ∧
+    (∃ h, exS1.pages.get? 1 = some h) ∧
+    ∃ (s : State Nat) (h : Page), InvG s ∧ Rep s ∧ s.pages.get? 1 = some h ∧
+      (freeSlot s 1 1 h).heap.N (1, 0) ≠ s.heap.N (1, 0) ∧
+      (freeSlot s 1 1 h).mem.get? (.sh 1 0) = some junk := by
+  obtain ⟨s, h, hr, hp, hn⟩ := exFree_changes_node
+  have i := (alloc_inv _ _ hr).g
+  have r := rep_inv _ _ hr
+  exact ⟨⟨(alloc_inv _ _ exS1_run).g, rep_inv _ _ exS1_run⟩, exS1_allocSlot, exS1_beginEvac,
+    by simp [exS1, KMap.get?_set], s, h, i, r, hp, hn,
+    (node_writes_clobbered s i r).2.1 1 1 h hp (1, 0) hn⟩
 
 /-- The allocator's accounting equals the counted values in every reachable state: Allocs = number of
 live allocations, freeSlots[class] = Σ header.free over the pages of the class's page list, SharedMmaps =
@@ -553,6 +580,13 @@ theorem counters_step {V : Type} (s s' : State V) (op : Op V) (inv : Inv s) (cn 
     (hr : step s op = .ok s') : Cnt s' := step_cnt inv cn hr
 
 example : Cnt (init : State Nat) := init_cnt
+/-- non-vacuity at a state with a mapped page and a live record; counters there are 1 alloc, 1 shared mmap, 7 free slots -/
+example : Inv exS1 ∧ Cnt exS1 ∧ (∃ s', step exS1 (.malloc 131040) = .ok s') ∧
+    exS1.allocs = 1 ∧ exS1.sharedMmaps = 1 := by
+  have i := alloc_inv _ _ exS1_run
+  obtain ⟨_, c2, c3, c4, c5⟩ := counters_exact _ _ exS1_run
+  obtain ⟨s', a, h⟩ := malloc_never_fails exS1 i 131040
+  exact ⟨i, ⟨c2, c3, c4, c5⟩, ⟨s', by simp [step, h]⟩, rfl, rfl⟩
 
 /-! ### the per-class mutex is the mutex of the class that is edited (checked source fact) -/
 
@@ -560,8 +594,14 @@ example : Cnt (init : State Nat) := init_cnt
 of the `a.classMu[…].Lock()` reached from Malloc, `mallocEditSel` the index expression of every per-class slice
 access of Malloc and of the package functions it calls (calls are followed, whatever the helpers are named), both
 regenerated from the source on every run in the name-free normal form of go/cmd/gen_c20/canon.go;
-`mallocLockBrackets` says that on every control path the mutex is locked at most once, all those accesses happen
-while it is held, and Malloc is left with the mutex released.  Both
+`mallocLockBrackets` says that on every control path the mutex is locked at most once, all those accesses AND
+every access to a field of a page header / free-list node (`H(…).f`, `N(…).f` in the normal form — used, brk,
+free, freeList, evacuating, the link fields — or memory behind a pointer the translator cannot classify;
+reads in conditions included; calls followed; nothing of it inside a goroutine started by a callee) happen
+while it is held, the only exception being the read of the header's `class` byte that selects the mutex, and
+Malloc is left with the mutex released.  Not pinned by the fact: the slot's own slice header (written by
+Malloc after Unlock — the slot is the caller's by then), accesses through function values or from other
+packages, and what the hardware does with the accesses (the memory model).  Both
 terms denote the same class c, and c is exactly the class on which the model's Malloc step operates
 (`allocLive … c`), so treating the call as one atomic step of class c (as `alloc_inv` and every op-sequence
 theorem of this file does) is justified by the source, not by prose. -/
@@ -575,7 +615,9 @@ theorem malloc_locks_own_class {V : Type} (s : State V) (size : Nat) (h : size +
 /-- Free of a live shared allocation locks the mutex OF THE CLASS IT EDITS.  `freeLockSel` is the index
 expression of the `a.classMu[…].Lock()` in Free, `freeEditSel` the index expression of every per-class slice
 access reachable from Free (calls followed; regenerated from the source on every run), `freeLockBrackets` says
-that on every control path the mutex is locked at most once, all those accesses happen while it is held, and
+that on every control path the mutex is locked at most once, all those accesses and every access to page
+header / node memory (as for `mallocLockBrackets`; Free reads `H(page p).class` before `Lock()` to choose the
+mutex — the one permitted access outside) happen while it is held, and
 Free is left with the mutex released.  In every reachable state (`Inv`) both terms denote the
 class byte `h.cls` of the header of the page holding the slot; the model's Free step is `freeSlot … h`, which
 edits the lists and counters of class `h.cls` and leaves every other class's state alone.  The proof accepts
